@@ -3,8 +3,10 @@ pub mod harness;
 pub mod run;
 pub mod src;
 pub mod refmodel {
+    pub mod addr;
     pub mod dbus;
     pub mod gv;
+    pub mod matchrule;
     pub mod msg;
     pub mod names;
     pub mod sig;
